@@ -12,7 +12,6 @@ import argparse
 import importlib
 import itertools
 import json
-import multiprocessing as mp
 import os
 import shutil
 import subprocess
@@ -24,10 +23,78 @@ from . import api
 ROOT = os.path.dirname(os.path.dirname(os.path.abspath(__file__)))
 
 
-def _worker(spec):
-    from . import worker
+def _run_chunk(chunk_id, specs, build_dir, hard_timeout):
+    """Analyse a chunk of cubes in one worker subprocess; survive crashes and hangs of the
+    worker (the cube in flight becomes a harness error, the rest is resubmitted)."""
+    results = []
+    todo = list(specs)
+    attempt = 0
+    while todo:
+        attempt += 1
+        sp = os.path.join(build_dir, f"chunk{chunk_id}_{attempt}.json")
+        op = os.path.join(build_dir, f"chunk{chunk_id}_{attempt}.jsonl")
+        with open(sp, "w") as f:
+            json.dump(todo, f)
+        open(op, "w").close()
+        try:
+            p = subprocess.run(
+                [sys.executable, "-m", "symkit.worker", sp, op],
+                cwd=ROOT,
+                env=dict(os.environ, PYTHONPATH=ROOT),
+                capture_output=True,
+                text=True,
+                timeout=hard_timeout,
+            )
+            tail = (p.stderr or "")[-1500:]
+            rc = p.returncode
+        except subprocess.TimeoutExpired:
+            tail, rc = f"worker exceeded the hard timeout of {hard_timeout}s", -9
+        done = {}
+        started = -1
+        with open(op) as f:
+            for line in f:
+                try:
+                    d = json.loads(line)
+                except ValueError:
+                    continue
+                if "started" in d:
+                    started = d["started"]
+                else:
+                    done[d["index"]] = d
+        for i in sorted(done):
+            results.append(done[i])
+        if len(done) == len(todo):
+            break
+        # the worker died or hung on cube `started`
+        bad = max(started, 0)
+        if bad not in done:
+            spec = todo[bad]
+            results.append(
+                {
+                    "module": spec["module"],
+                    "harness": spec["harness"],
+                    "cube": spec["cube"],
+                    "twin": spec.get("twin", False),
+                    "error": f"worker process died or hung (rc={rc}) while analysing this cube: {tail}",
+                    "wall": 0,
+                }
+            )
+        todo = [s for i, s in enumerate(todo) if i not in done and i != bad]
+    return results
 
-    return worker.analyse_cube(spec)
+
+def run_specs(all_specs, jobs, build_dir):
+    from concurrent.futures import ThreadPoolExecutor, as_completed
+
+    n = len(all_specs)
+    size = max(1, min(8, n // (jobs * 3)))
+    chunks = [all_specs[i : i + size] for i in range(0, n, size)]
+    hard = lambda ch: int(sum((s.get("cond_timeout") or s.get("_cond_timeout") or 300) for s in ch) * 2.5 + 120)
+    with ThreadPoolExecutor(jobs) as ex:
+        futs = [ex.submit(_run_chunk, i, ch, build_dir, hard(ch)) for i, ch in enumerate(chunks)]
+        for fut in as_completed(futs):
+            for res in fut.result():
+                yield res
 
 
 def cube_specs(h: api.Harness, module: str, tier: str, build_dir: str):
@@ -45,6 +112,7 @@ def cube_specs(h: api.Harness, module: str, tier: str, build_dir: str):
                 "tier": tier,
                 "cube": {p.name: v for p, v in zip(lead, combo)},
                 "build_dir": build_dir,
+                "_cond_timeout": h.cond_timeout(tier),
             }
         )
     return specs, lead
@@ -102,15 +170,14 @@ def run_check(prop: str, tier: str, only=None, jobs: int = 16, seed: int = 0) ->
         }
         all_specs += specs + [twin]
 
-    # longest first is unknown; interleave harnesses so that cores stay busy
-    ctx = mp.get_context("spawn")
-    with ctx.Pool(min(jobs, max(1, len(all_specs)))) as pool:
-        for res in pool.imap_unordered(_worker, all_specs, chunksize=1):
-            slot = per_h[res["harness"]]
-            if res.get("twin"):
-                slot["twin"] = res
-            else:
-                slot["cubes"].append(res)
+    # harnesses with few, long-running cubes first so that they overlap with the many small ones
+    all_specs.sort(key=lambda sp: per_h[sp["harness"]]["n_cubes"])
+    for res in run_specs(all_specs, jobs, build_dir):
+        slot = per_h[res["harness"]]
+        if res.get("twin"):
+            slot["twin"] = res
+        else:
+            slot["cubes"].append(res)
 
     violations = []
     known_hits: dict[str, dict] = {}
@@ -149,6 +216,8 @@ def run_check(prop: str, tier: str, only=None, jobs: int = 16, seed: int = 0) ->
                     errors.append(f"{h.key()} cube {c['cube']}: POST_FAIL without a recorded failure: {c['messages']}")
                 for f in c["failures"]:
                     to_replay.append((h, c, f))
+            elif (st == ["CANNOT_CONFIRM"] or st == []) and h.hunting_only:
+                pass  # bug hunting only: "not confirmed" is the expected outcome and no part of the verdict
             elif st == ["CANNOT_CONFIRM"] or st == []:
                 inconclusive.append(f"{h.key()} cube {c['cube']}: not confirmed after {c['paths']} paths ({c['messages']})")
             else:
